@@ -24,6 +24,7 @@ import (
 	"filippo.io/age/internal/zzverif/keys"
 	"filippo.io/age/internal/zzverif/lab"
 	"filippo.io/age/internal/zzverif/refage"
+	"golang.org/x/crypto/scrypt"
 )
 
 type shared struct {
@@ -55,21 +56,28 @@ func sharedValues() []shared {
 	if err != nil {
 		panic(err)
 	}
-	return []shared{{"x25519", x.Recipient(), x}, {"scrypt", sr, si}, {"ssh-ed25519", ed.Recipient(), ed}, {"ssh-rsa", rsa.Recipient(), rsa}, {"ssh-rsa(key from components)", rsaRaw.Recipient(), rsaRaw}}
+	// a passphrase recipient left at its default work factor (the build replaces scrypt above 2^12 by a cheap stand-in)
+	srDef, _ := age.NewScryptRecipient("shared passphrase")
+	siDef, _ := age.NewScryptIdentity("shared passphrase")
+	return []shared{{"x25519", x.Recipient(), x}, {"scrypt", sr, si}, {"scrypt(default work factor)", srDef, siDef}, {"ssh-ed25519", ed.Recipient(), ed}, {"ssh-rsa", rsa.Recipient(), rsa}, {"ssh-rsa(key from components)", rsaRaw.Recipient(), rsaRaw}}
 }
 
 func child(goroutines, rounds int) {
-	plains := [][]byte{lab.Plain(5, 1), lab.Plain(300, 2), lab.Plain(stream.ChunkSize+3, 3)}
+	scrypt.VerifNoLog = true
+	plains := [][]byte{lab.Plain(5, 1), lab.Plain(300, 2), lab.Plain(stream.ChunkSize+3, 3), lab.Plain(stream.ChunkSize, 4)}
 	ops := 0
 	for _, sh := range sharedValues() {
 		var files [][]byte
 		for _, p := range plains {
-			f, err := lab.Encrypt([]age.Recipient{sh.rcpt}, p, false, nil)
+			// made with a recipient value of its own (the shared one is first used inside the goroutines)
+			f, err := lab.Encrypt([]age.Recipient{freshRecipientLike(sh)}, p, false, nil)
 			if err != nil {
 				panic(err)
 			}
 			files = append(files, f)
 		}
+		// a file with a full final chunk followed by one more byte: every goroutine's decryption of it must fail
+		damaged := append(append([]byte{}, files[3]...), 0x55)
 		var wg sync.WaitGroup
 		errs := make([]string, goroutines)
 		for g := 0; g < goroutines; g++ {
@@ -104,6 +112,15 @@ func child(goroutines, rounds int) {
 						out, err := io.ReadAll(rd)
 						if err != nil || !bytes.Equal(out, plains[k]) {
 							errs[g] = fmt.Sprintf("round trip differs: %v", err)
+							return
+						}
+					} else if (g+r)%5 == 1 {
+						rd, err := age.Decrypt(bytes.NewReader(damaged), sh.id)
+						if err == nil {
+							_, err = io.ReadAll(rd)
+						}
+						if err == nil {
+							errs[g] = "a file with trailing data decrypts without error"
 							return
 						}
 					} else {
@@ -145,7 +162,7 @@ func main() {
 		if c.Thorough() {
 			configs = append(configs, [2]int{3, 20}, [2]int{8, 20}, [2]int{32, 8}, [2]int{64, 4})
 		}
-		c.Bound("free-running goroutines (fork-join, no synchronisation between operations) sharing one recipient and one identity value per key type {x25519, scrypt, ssh-ed25519, ssh-rsa, ssh-rsa with a key assembled from its components}: %v (goroutines, rounds) of Encrypt+Decrypt round trips and Decrypt of pre-made files of 3 sizes, built with -race", configs)
+		c.Bound("free-running goroutines (fork-join, no synchronisation between operations) sharing one recipient and one identity value per key type {x25519, scrypt, ssh-ed25519, ssh-rsa, ssh-rsa with a key assembled from its components}: %v (goroutines, rounds) of Encrypt+Decrypt round trips and Decrypt of pre-made files of 4 sizes and of a file with trailing data (must fail), built with -race", configs)
 		for ci, cfg := range configs {
 			if !c.MineKey(ci) {
 				continue
@@ -183,4 +200,14 @@ func main() {
 			c.Sample(map[string]interface{}{"goroutines": cfg[0], "rounds_per_goroutine": cfg[1], "operations": ops, "race_reports": strings.Count(errb.String(), "WARNING: DATA RACE")})
 		}
 	})
+}
+
+// freshRecipientLike returns a recipient equivalent to sh.rcpt that is not the shared value.
+func freshRecipientLike(sh shared) age.Recipient {
+	for _, o := range sharedValues() {
+		if o.name == sh.name {
+			return o.rcpt
+		}
+	}
+	panic("unknown shared value " + sh.name)
 }
